@@ -92,6 +92,10 @@ def stream_cases(rep, tier, seed):
     tmp = H.subdir("c18files")
     n_ok = 0
     for k, (_, nf, recs, shifted, accept, header, prefix) in enumerate(rows):
+        # magnitudes: the enumerated feature values (0, -1.25, 1.5) are scaled by an exact power of two per dataset (1, 2^-12, 2^-40,
+        # 2^-100 - all still exactly representable in float32): "exactly the stored float32 values" whatever their size
+        e_ = (0, 12, 40, 100)[k % 4]
+        recs = [[r_[0], r_[1], [[p_, q_ * 2 ** e_] for p_, q_ in r_[2]]] for r_ in recs]
         # the same file names are written again and again (every second dataset re-uses the previous paths): a conversion must
         # replace whatever an earlier one left there
         base = os.path.join(tmp, "d%d" % (k if k % 2 else 0))
@@ -169,7 +173,7 @@ def run(tier, seed):
         for clause in B["__set__"]:
             rep.violation("splitter", clause, "n=%d p=%d/%d" % (metas[tid - 1]["n"], metas[tid - 1]["num"], metas[tid - 1]["den"]) if "size" in clause else "split", {"case": metas[tid - 1], "observed": traces[tid - 1]})
     stream_cases(rep, tier, seed)
-    rep.cov["rule"] = "split/split_with_index/merge on random datasets (duplicates included), dyadic percentages, repeated seeds, judged by TLC on interned (features,label) pairs; every dataset TLC enumerates from Stream.tla (<=3 samples, 1..2 float32-exact features, labels 1..3 incl. non-sequential sets, distinct ids) packed per the spec's layout and pushed through opf2txt/csv/json -> load_* -> parse_loader and Subgraph(from_file)"
+    rep.cov["rule"] = "split/split_with_index/merge on random datasets (duplicates included), dyadic percentages, repeated seeds, judged by TLC on interned (features,label) pairs; every dataset TLC enumerates from Stream.tla (<=3 samples, 1..2 float32-exact features scaled by 1 / 2^-12 / 2^-40 / 2^-100, labels 1..3 incl. non-sequential sets, distinct ids) packed per the spec's layout and pushed through opf2txt/csv/json -> load_* -> parse_loader and Subgraph(from_file)"
     rep.assumptions = ["TLC", "dyadic percentages make int(n*p) the mathematical floor", "encode/decode fidelity is checked by enumeration of small cases, not proved"]
     return rep.finish()
 
